@@ -494,14 +494,14 @@ Qed.
 
 (** non-vacuity: a write enqueued before Close, Close started; afterwards the
     worker, the client and the closing goroutine run to completion within the
-    rank (8 steps, rank 9). *)
+    rank (11 steps, rank 11: the bound is tight). *)
 From Coq Require Import String.
 Definition ex_progs (t : N) : list cop :=
   if t =? 3 then [CSet (unhex "6b"%string) (Some (unhex "01"%string)) false false; CSet (unhex "6b"%string) None false false] else [].
 Definition ex_g1 : gstate := run tstep (g_init 4 2 ex_progs) [3; 3; 3; 2].
 
 Example progress_example :
-  closed_b (g_close ex_g1) = true /\ rank [3] ex_g1 = 13%nat /\
+  closed_b (g_close ex_g1) = true /\ rank [3] ex_g1 = 11%nat /\
   exists g', exec (tstep_c [3]) ex_g1 [0; 0; 0; 0; 3; 3; 3; 3; 3; 2; 2] = Some g' /\
              g_close g' = ClDone /\ finished (g_clients g' 3) /\ rank [3] g' = 0%nat.
 Proof.
